@@ -801,7 +801,7 @@ def gen_oracle(pid, ops, impl):
                               "why": f"generated module fails the {cls} check: {msg}"})
         for o, r in zip(ops, impl):
             if o.startswith(("compile\t", "p_c16\t")) and r.startswith("violated: the file written"):
-                fails.append({"op": o, "impl": r[:300], "expected": "a file that can be included inside a module: the items behind comments and use items",
+                fails.append({"op": o, "impl": r[:300], "expected": "a file that can be included inside a module: the returned items behind a header without inner attributes or inner doc comments",
                               "kfneed": [], "why": "the generated file is not a well-formed module body: " + r[:200]})
     if pid == "C14":
         for j, o, sx, text, srcs in cases:
